@@ -18,6 +18,8 @@ func runC13(p *core.Prog, r *core.Report) {
 	c13Gates(c)
 	c13Mask(c)
 	c13Wiring(c)
+	noArgMutation(c, "R13.4", "crypto/mta", "crypto/paillier")
+	c.r.Floor("R13.4", 30)
 }
 
 // callArgTerms returns terms of the explicit args (receiver first for methods).
@@ -223,6 +225,41 @@ func extractOf(call *ssa.Call, i int) ssa.Value {
 		}
 	}
 	return nil
+}
+
+// noArgMutation (R13.4 / R14.3): the packages' functions never overwrite a *big.Int they did not
+// allocate themselves and never hand a parameter back as a result. This is what makes "the value
+// verified is the value used" (R13.1) and "cB = b*cA + Enc(mask)" (R13.3) hold for the caller's
+// objects and not only for SSA names: an in-place HomoAdd or a HomoMult returning its argument
+// would let BobMid overwrite Alice's ciphertext between the proof check and its use.
+func noArgMutation(c *ctx, rule string, rels ...string) {
+	e := core.NewEffects(c.p)
+	n := 0
+	for _, rel := range rels {
+		muts := e.NonFreshMutations(rel)
+		for _, f := range c.p.FuncsOfPkg(rel) {
+			if f.Parent() != nil {
+				continue
+			}
+			n++
+			key := fkey(rule, f, "no-argument-mutation")
+			var bad []string
+			for _, m := range muts {
+				if core.Outermost(m.Call.Parent()) == f {
+					bad = append(bad, fmt.Sprintf("%s overwrites a *big.Int owned by %v at %s", core.CalleeShort(m.Call), m.Origins, c.pos(m.Call)))
+				}
+			}
+			for i := range e.RetAlias[f] {
+				bad = append(bad, fmt.Sprintf("may return its parameter #%d (%s) itself: a later in-place operation on the result overwrites the caller's value", i, f.Params[i].Name()))
+			}
+			if len(bad) == 0 {
+				c.r.Triv(rule, key, c.fpos(f), "all in-place big.Int operations target objects allocated in the function; no parameter is returned")
+			} else {
+				c.r.Bad(rule, key, c.fpos(f), fmt.Sprint(bad))
+			}
+		}
+	}
+	c.r.Stats["functions_effect_checked"] += n
 }
 
 func c13Wiring(c *ctx) {
